@@ -370,6 +370,11 @@ def _gen_list(draw, spec, mut):
                 v = pad + body
             else:
                 off = draw(st.integers(0, len(pad)))
+                if len(body) >= 2 and draw(st.integers(0, 2)) == 0:
+                    # a decoy before the real window: the window's beginning followed by something else
+                    # (a partial match that a window search must not stop at)
+                    pad = pad[:off] + body[:-1] + [draw(junk_scalar)] + pad[off:]
+                    off = len(pad) if draw(st.booleans()) else off + len(body)
                 v = pad[:off] + body + pad[off:]
     if here:
         ops = ["tuple", "append", "none"]
